@@ -85,6 +85,9 @@ pub fn r14_res<T>(r: Result<T, crate::parse::ParseError>) -> (o: Result<T, crate
 pub uninterp spec fn range_is_empty_spec<Idx>(r: &core::ops::Range<Idx>) -> bool;
 pub assume_specification<Idx>[core::ops::Range::<Idx>::is_empty](r: &core::ops::Range<Idx>) -> (b: bool) where Idx: core::cmp::PartialOrd + core::cmp::PartialOrd,
     ensures b == range_is_empty_spec(r);
+// A19: bool::then_some (not called by the pinned tree; lets changed code that uses it be decided)
+pub assume_specification<T>[ bool::then_some ](b: bool, t: T) -> (r: Option<T>)
+    ensures r == (if b { Some(t) } else { None::<T> });
 pub assume_specification [u32::checked_shr] (x: u32, n: u32) -> (r: Option<u32>)
     ensures n < 32 ==> r == Some(x >> n), n >= 32 ==> r is None;
 
